@@ -78,7 +78,7 @@ func Run(b *Bins, root, side string, l *scen.Lifetime, idx int) (*Result, error)
 		}
 		bin = b.RaceBin
 	}
-	args := []string{"-test.count=" + strconv.Itoa(max(1, l.Count)), "-test.timeout=40s"}
+	args := []string{"-test.count=" + strconv.Itoa(max(1, l.Count)), "-test.timeout=25s"}
 	if l.Run != "" {
 		args = append(args, "-test.run="+l.Run)
 	}
@@ -108,7 +108,7 @@ func Run(b *Bins, root, side string, l *scen.Lifetime, idx int) (*Result, error)
 	res := &Result{}
 	select {
 	case err = <-done:
-	case <-time.After(70 * time.Second):
+	case <-time.After(60 * time.Second):
 		cmd.Process.Kill()
 		<-done
 		res.Timeout = true
